@@ -131,6 +131,10 @@ fn pairs() -> Vec<(&'static str, &'static str)> {
         ("(?<n>a)?(?(<n>)b|c)", "(?<n>a)?(?('n')b|c)"),
         ("(a)?(?(1)b|c)", "(a)?(?(<1>)b|c)"),
         ("a", "\\x61"),
+        ("(?:(?i:a)|(?i:b))c", "(?:(?i)a|b)c"),
+        ("^(x)?(?(1)(?i:b)|(?i:c))$", "^(x)?(?(1)(?i)b|c)$"),
+        ("(?i:^(x)?(?(1)(?-i:b)|(?-i:c))$)", "(?i)^(x)?(?(1)(?-i)b|c)(?i)$"),
+        ("(?((?=a))(?s:.)|(?s:.)b)", "(?((?=a))(?s).|.b)"),
         ("(?i)é", "(?i)\\xE9"),
         ("(?i)é", "(?i)\\u00e9"),
         ("(?i:café)", "(?i:caf\\x{e9})"),
